@@ -10,7 +10,17 @@ PROP = 'C14'
 LEAN_TARGETS = ['Props.C14']
 REQUIRED_THEOREMS = ['Props.C14.linear_is_addmm', 'Props.C14.cross_entropy_is_nll_log_softmax', 'Props.C14.mean_is_sum_div_count',
                      'Props.C14.flatten_is_reshape', 'Props.C14.sub_is_add_neg', 'Props.C14.div_is_mul_pow', 'Props.C14.stack_is_concat_unsqueeze',
-                     'Props.C14.unbind_inverts_stack', 'Props.C14.movedim_adjacent_is_transpose', 'Props.C14.conv2d_is_unfold_matmul', 'Props.C14.avgpool2d_is_unfold_mean', 'Props.C14.maxpool2d_is_unfold_max']
+                     'Props.C14.unbind_inverts_stack', 'Props.C14.movedim_adjacent_is_transpose', 'Props.C14.conv2d_is_unfold_matmul', 'Props.C14.avgpool2d_is_unfold_mean', 'Props.C14.maxpool2d_is_unfold_max',
+                     'Props.C14.log_softmax_is_log_softmax', 'Props.C14.log_softmax_entries', 'Props.C14.library_log_of_softmax',
+                     'Props.C14.library_log_of_softmax_counterexample', 'Props.C14.bce_logits_vs_bce_sigmoid', 'Props.C14.bce_both_reject',
+                     'Props.C14.bce_logits_vs_bce_sigmoid_unit_targets', 'Props.C14.bce_logits_ne_bce_sigmoid_counterexample',
+                     'Props.C14.bce_sigmoid_no_eps', 'Props.C14.sequential_is_composition', 'Props.C14.sequentialForward_eq_fold',
+                     'Props.C14.sequential_is_function_composition', 'Props.C14.sequential_nil_single', 'Props.C14.sequential_append',
+                     'Props.C14.sequentialDict_is_composition', 'Props.C14.neuron_is_linear', 'Props.C14.grad_eq_of_forward_eq',
+                     'Props.C14.vjp_grad_eq_of_forward_eq', 'Props.C14.vjp_comp_adjoint', 'Props.C14.cross_entropy_grad_is_nll_log_softmax_grad',
+                     'Props.C14.linear_grads_are_matmul_grads', 'Props.C14.mean_grad_is_sum_div_grad',
+                     'Props.C14.conv1d_is_conv2d_row', 'Props.C14.avgpool1d_is_avgpool2d_row', 'Props.C14.maxpool1d_is_maxpool2d_row',
+                     'Props.C14.conv1d_is_unfold_matmul', 'Props.C14.avgpool1d_is_unfold_mean', 'Props.C14.maxpool1d_is_unfold_max']
 RULE = ('one program per identity and operand set, both sides built over the same leaves: cross-entropy | NLL of log_softmax; '
         'BCE-with-logits | BCE of sigmoid (moderate logits); log_softmax | log of softmax; linear | x @ W.T + b; addmm | a + b @ c; '
         'conv2d | unfold, matmul, reshape; max/avg pool | unfold, max/mean; a - b | a + (-b); a / b | a * b**-1; mean | sum / count; '
